@@ -28,7 +28,7 @@ EvPeer ==
          relevant == E.stage \notin {"quit", "rset"} \/ ~R.returned
      IN R' = [R EXCEPT !.fails = IF E.stage = "quit" THEN @ ELSE @ \cup f,
                        \* a 5xx answer that concerns the whole message (not one recipient among several)
-                       !.msg5 = @ \/ (E.act = "code" /\ Cls(E.code) = 5 /\ E.stage \in {"banner", "ehlo", "helo", "mail", "data", "exit", "http"})
+                       !.msg5 = @ \/ (E.act = "code" /\ Cls(E.code) = 5 /\ E.stage \in {"banner", "ehlo", "helo", "mail", "data", "exit", "http", "dns"})
                                   \/ (E.act = "code" /\ Cls(E.code) = 5 /\ E.stage = "eod" /\ ~T.cfg.lmtp),
                        !.acc = IF E.stage = "rcpt" /\ E.act = "code" /\ Cls(E.code) = 2 THEN @ \cup {E.i} ELSE @,
                        !.rc4 = IF E.stage = "rcpt" /\ E.act = "code" /\ Cls(E.code) = 4 THEN @ \cup {E.i} ELSE @,
@@ -67,7 +67,9 @@ EvEnd == /\ E.t = "end" /\ R' = R
          /\ bad' = bad \cup Flag("C11_TotalResult", E.hung = 0 \/ R.stall # -1)
                        \cup Flag("C14_Bounded", E.hung = 0)
 EvOther == /\ E.t \in {"conn", "advance", "peer_content"} /\ R' = R /\ bad' = bad
-Next == /\ l <= Len(Tr) /\ (EvCall \/ EvPeer \/ EvRet \/ EvEnd \/ EvOther) /\ l' = l + 1 /\ UNCHANGED tid
+\* MX relay: hosts sorted by preference, the one tried is chosen by the attempt number
+EvMx == /\ E.t = "mx" /\ R' = R /\ bad' = bad \cup Flag("C11_MxChoice", E.n >= 1 /\ E.rank = E.attempts % E.n)
+Next == /\ l <= Len(Tr) /\ (EvCall \/ EvPeer \/ EvRet \/ EvEnd \/ EvOther \/ EvMx) /\ l' = l + 1 /\ UNCHANGED tid
 Spec == Init /\ [][Next]_vars
 AtEnd == l = Len(Tr) + 1
 Watch == AtEnd => PrintT(<<"END", T.id, bad>>)
